@@ -2,6 +2,7 @@
 // objects of every kind; harness objects count the calls they receive and may
 // refuse a reference, library objects are alive iff their allocation is.
 #include "worlds/common.hpp"
+#include <type_traits>
 #define protected public
 #define private public
 #include "io.h"
@@ -59,6 +60,10 @@ static int lib_send(void *, const reply_data *, const message *) { return 0; }
 // plot data: the C++ layout / graph / world / axis / cycle classes, counted by the library's own reference<T>::type;
 // the harness only observes construction and destruction
 static std::set<const void *> g_plot_live;
+template <typename T> static bool try_copy_obj(T &from) {
+	if constexpr (std::is_copy_constructible<T>::value) { Sut s; T c(from); (void) c; return true; }
+	else return false;
+}
 template <typename T> struct Tr : public reference<T>::type {
 	Tr() { g_plot_live.insert(id()); }
 	~Tr() { Harness h; g_plot_live.erase(id()); }
@@ -317,7 +322,9 @@ struct RefsWorld : World {
 					if (!in) acc_ch = -1; else st.hit("probe:input_from_streaminfo");
 					if (in && !chan_open(acc_ch)) fail("destroyed-early", "a stream input created from a streaminfo has no open descriptor left once the streaminfo is gone (1 holder)");
 				}
-				else if (k == 8) { io::stream::input *in; { Sut su(failn); in = io::stream::input::create(0); fired = g.fired; } lib[k] = in ? static_cast<metatype *>(in) : 0; acc_ch = -1; }
+				else if (k == 8) { io::stream::input *in; { Sut su(failn); in = io::stream::input::create(0); fired = g.fired; } lib[k] = in ? static_cast<metatype *>(in) : 0; acc_ch = -1;
+					// (where an io::stream can be copied at all, the copy and its going away leave the original with its stream)
+					if (in && (op.c & 1024)) { bool c = try_copy_obj(*static_cast<io::stream *>(in)); st.hit(c ? "probe:cxx_io_stream_copied" : "probe:cxx_io_stream_not_copyable"); } }
 				else if (k == 9) { mpt::path pp; pp.sep = '.'; pp.assign = 0; { Sut su; mpt_path_set(&pp, "refs.view", -1); } { Sut su(failn); lib[k] = mpt_config_global(&pp); fired = g.fired; } }
 				else {
 					int ch = simio::new_chan(64); lib_fd = simio::new_fd(ch, ch, O_RDWR | O_NONBLOCK);
